@@ -140,6 +140,8 @@ def eval_twin_route(prop, cfg, ops, opts=None):
             else:
                 continue
         ra, rb = wa.results[i], wb.results[i]
+        wa.evals += 1
+        wa.nontrivial.add((op["op"], op.get("hmode"), catalog.canon(ra)[:60]))
         if ra == rb:
             ra, rb = wa.state_trace.get(i), wb.state_trace.get(i)
             if ra is None or rb is None:
@@ -241,6 +243,11 @@ class Agg:
     def add_result(self, seed, cfg, ops, r, how="single"):
         if r.world is not None:
             self.add_world(r.world)
+            # chained digest of every case explored for this seed
+            self.digests[seed] = hashlib.sha256(
+                (self.digests.get(seed, "") + r.world.digest.hexdigest() +
+                 catalog.canon(r.violation) + str(r.foreign)).encode()
+            ).hexdigest()
         if r.violation is not None:
             if len(self.failures) < 12:
                 self.failures.append((seed, cfg, ops, r.violation, how))
@@ -292,14 +299,12 @@ def explore_seed(prop, seed, tier, agg):
     if prop == "C10":
         r = eval_twin_route(prop, cfg, ops)
         agg.add_result(seed, cfg, ops, r, "twin_route")
-        agg.digests[seed] = r.world.digest.hexdigest() if r.world else ""
         return
     if prop in sweeps.SWEEPS:
         sweeps.SWEEPS[prop](prop, seed, cfg, ops, tier, agg)
         return
     r = run_case(prop, cfg, ops)
     agg.add_result(seed, cfg, ops, r)
-    agg.digests[seed] = r.world.digest.hexdigest()
 
 
 def _cfg_diff(cfg):
